@@ -165,9 +165,57 @@ def tail_shape(case, agg):
     return k
 
 
+NARROW = [(numpy.uint8, 64, 4), (numpy.uint8, 100, 3), (numpy.uint8, 255, 2), (numpy.uint8, 16, 17), (numpy.uint8, 3, 90),
+          (numpy.uint16, 300, 220), (numpy.uint16, 1000, 66), (numpy.int8, 60, 3), (numpy.uint8, 200, 6)]
+
+
+def narrow_storage(ctx, case, salt):
+    """Dimensions held in the narrowest integer type that fits their values (what iindex.to_array() hands out), with
+    enough categories x positions that categories*positions does not fit that type: each position's block is still
+    the count of that column alone."""
+    import catii
+
+    dt, ncat, extent = NARROW[salt % len(NARROW)]
+    rng = numpy.random.default_rng([salt, 1313])
+    n = int(rng.integers(150, 700))
+    arr = rng.integers(0, ncat, size=(n, extent)).astype(dt)
+    arr[rng.integers(0, n, size=5), rng.integers(0, extent, size=5)] = ncat - 1
+    second = rng.integers(0, 3, size=n).astype(numpy.uint8) if salt % 3 == 1 else None
+    for kind in ("xcube", "ccube"):
+        if kind == "xcube":
+            dims = [arr] + ([second] if second is not None else [])
+        else:
+            dims = [catii.iindex.from_array(arr)] + ([catii.iindex.from_array(second)] if second is not None else [])
+        shape = (ncat,) + ((3,) if second is not None else ())
+        cube = getattr(catii, kind)(dims, interacting_shape=shape)
+        ctx.count("class:narrow_storage_dtype_with_categories*positions_beyond_it")
+        ctx.count("cube:" + kind)
+        res = numpy.asarray(cube.count())
+        ctx.evaluation({"narrow": salt, "k": kind}, True)
+        if res.shape != (extent,) + shape:
+            ctx.violation("shape:%s:count:narrow-storage" % kind, "result shape %r, expected %r" % (res.shape, (extent,) + shape), case)
+            return
+        for j in range(extent):
+            if second is None:
+                want = numpy.bincount(arr[:, j].astype(numpy.int64), minlength=ncat).astype(float)
+            else:
+                want = numpy.zeros(shape)
+                numpy.add.at(want, (arr[:, j].astype(numpy.int64), second.astype(numpy.int64)), 1)
+            got = numpy.nan_to_num(res[j].astype(float), nan=0.0)
+            ctx.count("blocks_compared")
+            if not numpy.array_equal(got, want):
+                bad = numpy.argwhere(got != want)[:3].tolist()
+                ctx.violation("block-differs:%s:count:narrow-storage" % kind,
+                              "%s of a %s array with %d categories x %d positions: block %d differs from the count of column %d alone "
+                              "at cells %r (block total %g, rows %d)" % (kind, numpy.dtype(dt).name, ncat, extent, j, j, bad, got.sum(), n), case)
+                return
+
+
 def judge(ctx, case):
     import catii
 
+    if case["n"] % 3 == 0 and case["agg"] == "count":
+        narrow_storage(ctx, case, case["n"] + len(case["dense"]) * 31 + sum(case["commons"]))
     dense = [numpy.asarray(d) for d in case["dense"]]
     dims = gen.cube_dims(case)
     shape = tuple(case["shape"])
